@@ -231,6 +231,73 @@ def r11_8(chk, facts):
             else: chk.fail('R11.8', site, fn['file'], decl.line, 'make_contains_validator: `%s` can reach the contains_validator construction still null: with only the other bound present the validator skips its own "at least one match" rule, so the default of the missing keyword is lost' % vn, None, fn['q'])
     chk.require(n >= 2, 'R11.8: only %d bounds checked' % n)
 
+def r11_9(chk, facts):
+    """The child-context constructors of eval_context form two families: flags given, flags inherited."""
+    chk.rule('R11.9', 'eval_context constructor families: every constructor that receives evaluation flags initialises flags_ with exactly that '
+                      'parameter, every constructor that does not inherits parent.flags_, and the overloads for a member name and for an '
+                      'array index agree in all other members; flags that leak from the parent make a nested schema collect '
+                      'unevaluatedProperties/Items annotations it should not, or drop them', floor=6)
+    ctors = {}
+    for f in facts.functions:
+        if f.get('fk') == 'CXXConstructor' and A.strip_targs(f.get('cls') or '').endswith('::eval_context') and f.get('inits') and not f.get('dep') and f.get('params'):
+            ctors.setdefault((f['file'], f['l']), f)
+    chk.require(len(ctors) >= 6, 'R11.9: only %d eval_context constructors with a parent found' % len(ctors))
+    fam = {}
+    for f in ctors.values():
+        chk.analysed(f)
+        fl = [p for p in f['params'] if 'evaluation_flags' in f['_types'][p['t'] - 1]]
+        inits = {i.get('m'): i.get('init') for i in f['inits']}
+        site = U.site(f, 'flags_ of ctor at line %s' % f['l'])
+        fi = A.strip(inits.get('flags_'), casts=True) if inits.get('flags_') is not None else None
+        # copy-constructing the enum may wrap the reference
+        while fi is not None and fi.get('k') in ('CXXConstructExpr',) and len(fi.get('args') or []) == 1: fi = A.strip(fi['args'][0], casts=True)
+        if fl:
+            ok = fi is not None and fi.get('k') == 'DeclRefExpr' and fi.get('id') == fl[0]['id']
+            want = 'the `%s` parameter' % fl[0]['n']
+        else:
+            ok = fi is not None and fi.get('k') == 'MemberExpr' and fi.get('n') == 'flags_' and (A.strip(fi.get('base'), casts=True) or {}).get('k') == 'DeclRefExpr'
+            want = 'parent.flags_'
+        if ok: chk.ok('R11.9', site, {'flags_': A.canon(inits.get('flags_'))})
+        else: chk.fail('R11.9', site, f['file'], f['l'], 'eval_context constructor at line %s initialises flags_ with `%s`, its family uses %s' % (f['l'], A.canon(inits.get('flags_')), want), None, f['q'])
+        # the other members, with the varying second parameter abstracted
+        second = f['params'][1]['id'] if len(f['params']) > 1 else None
+        def shape(e):
+            t = A.canon(e)
+            return t.replace(f['params'][1]['n'], '<child>') if second is not None else t
+        key = (bool(fl), 'validator' if second is not None and 'schema_validator' in f['_types'][f['params'][1]['t'] - 1] else 'child')
+        fam.setdefault(key, []).append((f, {m: shape(e) for m, e in inits.items() if m != 'flags_'}))
+    for key, members in sorted(fam.items()):
+        if len(members) < 2: continue
+        ref = members[0][1]
+        for f, sh in members[1:]:
+            site = U.site(f, 'members of ctor at line %s' % f['l'])
+            if sh == ref: chk.ok('R11.9', site, None)
+            else: chk.fail('R11.9', site, f['file'], f['l'], 'eval_context constructors at lines %s and %s belong to one family but initialise %s differently' % (
+                members[0][0]['l'], f['l'], sorted(k for k in set(sh) | set(ref) if sh.get(k) != ref.get(k))), None, f['q'])
+
+def r11_10(chk, facts):
+    """Whether annotations are wanted is a property of the context the validator was called with."""
+    chk.rule('R11.10', 'annotation requests: every require_evaluated_properties() / require_evaluated_items() test in a validator reads the context '
+                       'parameter the validator received; a child context built locally for one property or item carries fresh flags, so '
+                       'asking it drops the annotation and unevaluatedProperties/unevaluatedItems then rejects what was evaluated', floor=12)
+    n = 0; seen = set()
+    for fn in facts.functions:
+        if fn.get('body') is None or fn.get('dep') or not fn['file'].endswith('keyword_validator.hpp') or (fn['file'], fn['l']) in seen: continue
+        calls = [c for c in A.calls_in(fn['body'], no_lambda=True) if c.get('k') == 'CXXMemberCallExpr' and A.callee_name(c) in ('require_evaluated_properties', 'require_evaluated_items')]
+        if not calls: continue
+        seen.add((fn['file'], fn['l']))
+        chk.analysed(fn)
+        pids = set(p['id'] for p in fn['params'])
+        for i, c in enumerate(calls):
+            n += 1
+            o = A.strip(c.get('obj'), casts=True)
+            site = U.site(fn, '%s #%d' % (A.callee_name(c), i + 1))
+            if o is not None and o.get('k') == 'DeclRefExpr' and o.get('id') in pids: chk.ok('R11.10', site, {'line': c.get('l')})
+            else:
+                chk.fail('R11.10', site, fn['file'], c.get('l'), '%s asks `%s` for %s(): that is not the context this validator was called with' % (
+                    A.strip_targs(fn.get('cls') or fn['n']).split('::')[-1], A.text(o) if o is not None else '?', A.callee_name(c)), None, fn['q'])
+    chk.require(n >= 12, 'R11.10: only %d annotation tests found' % n)
+
 def run(chk, tier, only_rule=None):
     chk.explanation = EXPLANATION
     chk.not_decided = NOT_DECIDED
@@ -244,6 +311,8 @@ def run(chk, tier, only_rule=None):
     r11_6(chk, facts)
     r11_7(chk, facts)
     r11_8(chk, facts)
+    r11_9(chk, facts)
+    r11_10(chk, facts)
     voc = vocab()
     # keywords looked up by the shared layers every dialect factory delegates to
     shared = {}
